@@ -95,7 +95,7 @@ extern "C" void h_dc()
   ASSUME(ctx.tokens.line >= 0 && ctx.tokens.line < (1 << 30));
   g_a0 = ctx.address; g_dc0 = ctx.data_count; g_K = nondet_int(); g_j = nondet_int(); g_X = nondet_uint();
   ASSUME(g_K >= 0 && g_K < (1 << 26) && g_j >= 0 && g_j < WIDTH);
-  g_ncalls = 0; g_ntok = 0; g_hits = 0; g_xhits = 0; g_errors = 0; g_kres = 0; g_kval = 0; g_lastres = 0; g_lastval = 0;
+  g_ncalls = 0; g_ntok = 0; g_hits = 0; g_xhits = 0; g_errors = 0; g_range_errors = 0; g_kres = 0; g_kval = 0; g_lastres = 0; g_lastval = 0;
   g_p_address = &ctx.address; g_p_endian = &ctx.memory.endian; g_p_data_count = &ctx.data_count; g_p_pass = &ctx.pass;
   const int endian0 = ctx.memory.endian, dc0 = ctx.data_count, line0 = ctx.tokens.line, pass0 = ctx.pass;
 
@@ -140,6 +140,11 @@ extern "C" void h_dc()
   else
   {
     OBL(g_errors > 0, "C05.dc: failure is reported with a diagnostic");
+#if WIDTH == 2
+    if (g_range_errors > 0) OBL(g_ncalls > 0 && (g_lastval < -32768 || g_lastval > 65535), "C05.dc16: a range error is raised only for a value outside -32768..65535 (every documented value is accepted)");
+#else
+    OBL(g_range_errors == 0, "C05.dc: wider directives wrap to their width, they never raise a range error");
+#endif
     OBL(ctx.address == g_a0 + WIDTH * g_ncalls || (g_ncalls > 0 && ctx.address == g_a0 + WIDTH * (g_ncalls - 1)),
         "C05.dc: on failure only whole operands were written");
 #if WIDTH == 2
